@@ -37,7 +37,7 @@ static const char *const KIND_NAMES[] = {
     "plus_char", "format_ints", "format_double", "format_strings", "format_latin_1", "hex_encode", "base64_encode", "hex_decode", "base64_decode", "copy_construct",
     "iterate_at", "buf_compare", "buf16_to_string", "buf32_to_string", "bufw_to_string", "free_utf8_to_utf16", "free_utf16_to_utf8", "free_latin1",
     "priv_stream", "priv_stream_nums", "priv_from_num", "priv_append", "priv_assign", "priv_set_wide", "priv_buffer", "priv_vector", "priv_fill", "priv_literals",
-    "find_last_bounded", "format_complex", "decode_into_buffer", "split_join"};
+    "find_last_bounded", "format_complex", "decode_into_buffer", "split_join", "decode_invalid", "invalid_text", "bad_format", "out_of_range"};
 const int NKINDS = sizeof KIND_NAMES / sizeof KIND_NAMES[0];
 const char *bop_name(int k) { return (k >= 0 && k < NKINDS) ? KIND_NAMES[k] : "?"; }
 int bop_count() { return NKINDS; }
@@ -156,6 +156,29 @@ uint64_t do_op(const void *pool_, void *priv_, const BOp &op) {
         case 48: { ST::string n = slice(s, op.c); size_t max = s.size() ? op.c % s.size() : 0; h.u64((uint64_t)s.find_last(max, n, cs)); h.u64((uint64_t)s.find_last(max, n.c_str(), cs)); h.u64((uint64_t)s.find_last(max / 2, "e")); h.u64((uint64_t)s.find_last(max, 'o', cs)); break; }
         case 49: { hs(h, ST::format("{.3f} {}", std::complex<double>(op.c / 3.0, -(double)op.b), std::complex<float>(1.5f, (float)op.a))); break; }
         case 50: { char out[2048]; h.u64((uint64_t)ST::hex_decode(P.hex[op.a % P.hex.size()], out, sizeof out)); h.u64((uint64_t)ST::base64_decode(P.b64[op.b % P.b64.size()], nullptr, 0)); break; }
+        // ---- operations that fail: the error paths run concurrently too (what() is part of the digest)
+        case 52: { const ST::string &x = (op.c & 1) ? P.hex[op.a % P.hex.size()] : P.b64[op.a % P.b64.size()]; ST::string bad = x + ST::string::fill(1 + op.c % 3, '!');
+                   try { hb(h, ST::hex_decode(bad)); } catch (const ST::codec_error &e) { h.str(e.what()); }
+                   try { hb(h, ST::base64_decode(bad)); } catch (const ST::codec_error &e) { h.str(e.what()); }
+                   try { hb(h, ST::base64_decode(x.left(x.size() > 1 ? x.size() - 1 : 0))); } catch (const ST::codec_error &e) { h.str(e.what()); }
+                   try { hb(h, ST::hex_decode(x + "0")); } catch (const ST::codec_error &e) { h.str(e.what()); }
+                   break; }
+        case 53: { std::string raw(s.c_str(), s.size()); raw += (op.c & 1) ? "\xC3" : "\xE2\x82"; raw.insert(op.c % (raw.size() + 1), 1, (char)0xFE);
+                   try { hs(h, ST::string(raw)); } catch (const ST::unicode_error &e) { h.str(e.what()); }
+                   try { hs(h, ST::string::from_utf8(raw.c_str(), raw.size(), ST::substitute_invalid)); } catch (const ST::unicode_error &e) { h.str(e.what()); }
+                   const char16_t lone[] = {u'a', 0xD800, u'b', 0}; const char32_t big[] = {U'a', 0x110000, 0};
+                   try { hs(h, ST::string(lone)); } catch (const ST::unicode_error &e) { h.str(e.what()); }
+                   try { hs(h, s + big); } catch (const ST::unicode_error &e) { h.str(e.what()); }
+                   try { hb(h, s.to_latin_1(false)); } catch (const ST::unicode_error &e) { h.str(e.what()); }
+                   break; }
+        case 54: { static const char *const BAD[] = {"{", "{} {", "{z}", "{&9}", "{} {} {}", "{.", "{_"};
+                   try { hs(h, ST::format(BAD[op.c % 7], s, op.c)); } catch (const ST::bad_format &e) { h.str(e.what()); } catch (const std::out_of_range &e) { h.str(e.what()); }
+                   try { hs(h, ST::format((const char *)nullptr, 1)); } catch (const std::invalid_argument &e) { h.str(e.what()); }
+                   break; }
+        case 55: { try { h.u8((uint8_t)s.at(s.size() + op.c % 4)); } catch (const std::out_of_range &e) { h.str(e.what()); }
+                   try { h.u8((uint8_t)P.b8[op.a % P.b8.size()].at(1000 + op.c % 7)); } catch (const std::out_of_range &e) { h.str(e.what()); }
+                   try { hs(h, ST::hex_encode(nullptr, 4)); } catch (const std::invalid_argument &e) { h.str(e.what()); }
+                   break; }
         default: { auto v = s.split(','); ST::string_stream j; for (size_t i = 0; i < v.size(); i++) { if (i) j << ','; j << v[i]; } hs(h, j.to_string()); h.u8(j.to_string() == s); break; }
         }
     } catch (const ST::unicode_error &) { h.str("unicode_error"); }
